@@ -318,7 +318,7 @@ def run(repo, rep, tier):
     try:
         n = typed_statistics(repo, rep, T, "R-C01-1", "R-C01-2")
     except AnalysisError as e:
-        if not rep.findings:
+        if not rep.has_new_findings():
             raise
         rep.note(f"typing stopped early ({e}); the violations above already decide the run")
         return "see violations"
